@@ -311,7 +311,10 @@ def r8(ctx):
     spec = {"Eq": lambda a, b: a == b, "Eeq": lambda a, b: a == b, "Ne": lambda a, b: a != b, "Ene": lambda a, b: a != b,
             "Gt": lambda a, b: a > b, "Gte": lambda a, b: a >= b, "Lt": lambda a, b: a < b, "Lte": lambda a, b: a <= b}
     n = 0
-    for kind, pairs in (("Int", [(1, "2"), (2, "2"), (3, "2")]), ("Float", [(1.0, "2"), (2.0, "2"), (3.0, "2"), (-0.0, "0"), (0.0, "0"), (2.5, "2.5")])):
+    # (a literal with a size unit denotes its byte count under every operator, the strict ones included: `size === 1k`)
+    UNIT = {"1k": 1024.0, "2kb": 2000.0}
+    for kind, pairs in (("Int", [(1, "2"), (2, "2"), (3, "2"), (1023, "1k"), (1024, "1k"), (1025, "1k"), (2000, "2kb"), (2048, "2kb")]),
+                        ("Float", [(1.0, "2"), (2.0, "2"), (3.0, "2"), (-0.0, "0"), (0.0, "0"), (2.5, "2.5")])):
         for a, lit in pairs:
             for op, f in spec.items():
                 left = conf.variant(interp.rust_float_str(a) if kind == "Float" else str(a), kind, int_value=int(a), float_value=float(a))
@@ -322,14 +325,14 @@ def r8(ctx):
                     ctx.violation("numeric/unreadable", ctx.where(sem.CONFORMS), "cannot evaluate conforms for a %s value %s %s: %s" % (kind, op, lit, e))
                     return
                 n += 1
-                want = f(float(a), float(lit))
+                want = f(float(a), UNIT.get(lit) if lit in UNIT else float(lit))
                 ok = got is want
                 ctx.obligation(ok)
                 if not ok:
                     ctx.violation("numeric/%s/%s" % (kind, op), ctx.where(sem.CONFORMS),
                                   "a %s value %r compared with the literal `%s` under %s gives %s, numerically it is %s%s" %
                                   (kind, a, lit, op, got, want, " (negative zero equals zero: `size * -1 = 0` holds for an empty file)" if a == 0 else ""))
-    ctx.covered("numeric comparisons of conforms evaluated (Int and Float values x order types and signed zeroes x 8 operators)", n, distinct_keys=["Int", "Float"], exhaustive=True)
+    ctx.covered("numeric comparisons of conforms evaluated (Int and Float values x order types, signed zeroes, unit literals x 8 operators)", n, distinct_keys=["Int", "Float"], exhaustive=True)
     ctx.floor(n, 72, "numeric comparison evaluations", sem.CONFORMS)
 
 
